@@ -41,7 +41,7 @@ ASSUMPTIONS = [
     'mutations only through the public surface of returned objects',
     'between histories lru caches are cleared; a poisoned worker aborts as broken harness',
 ]
-REQUIRED_CLASSES = ['A_returned', 'A_rejected', 'A_repeat_identical', 'B_history', 'B_mutation_applied', 'group_graph', 'group_atoms', 'group_models', 'group_cif', 'cross_group']
+REQUIRED_CLASSES = ['A_returned', 'A_rejected', 'A_repeat_identical', 'B_silent_replay_identical', 'B_history', 'B_mutation_applied', 'group_graph', 'group_atoms', 'group_models', 'group_cif', 'cross_group']
 BOUND = {'quick': 'part A full product; part B depth 3 within groups (graph group: depth 2 + (call,mutate,call)), depth 2 across groups', 'thorough': 'part A full product; part B full depth 3 for graph factories, depth 4 for lookups / model combinators / CIF combinators, depth 2 across groups'}
 CHUNK = 4
 
@@ -517,6 +517,29 @@ def _run_history(hist, rec):
                     rec.viol(site_of(ev), 'earlier_result_changed', f'after {hist[: step + 1]} result #{idx} of group {gn}, never mutated by the caller, no longer equals its fingerprint at hand-out', step=step, result=idx)
                     return any_mut
         rec.observe(step, kind)
+    # ---- silent replay: the same events from a fresh state WITHOUT inspecting anything in between; what the results
+    # look like at the end may not depend on whether earlier results were looked at (public getters are not allowed
+    # to leave state behind that changes what later combinators hand out)
+    final_obs = {gn: [GROUPS[gn].observe(o) for o in live[gn]] for gn in groups}
+    for gn in groups:
+        GROUPS[gn].reset()
+    live2 = {gname: (GROUPS[gname].bases() if hasattr(GROUPS[gname], 'bases') else []) for gname in groups}
+    for ev in hist:
+        gname, kind, arg, target = ev
+        g = GROUPS[gname]
+        rec.transitions += 1
+        if kind == 'call':
+            live2[gname].append(g.factories[arg][1]() if gname in ('graph', 'atoms') else g.apply(arg, live2[gname]))
+        elif target is not None and target < len(live2[gname]):
+            g.mutate(live2[gname][target], arg)
+    for gn in groups:
+        rec.validated += 1
+        silent = [GROUPS[gn].observe(o) for o in live2[gn]]
+        if silent != final_obs[gn]:
+            bad = [i for i, (a, b) in enumerate(zip(silent, final_obs[gn], strict=False)) if a != b]
+            rec.viol(f'history/{gn}', 'result_depends_on_earlier_inspection', f'history {hist}: results {bad[:4]} of group {gn} look different when the same events are replayed without inspecting intermediate results', results=bad[:6])
+            return any_mut
+    rec.cls('B_silent_replay_identical')
     return any_mut
 
 
